@@ -1,6 +1,7 @@
 """User-level calls: callee contracts (modular), inlining of small uncontracted bodies, constructors,
 properties, list methods, local closures."""
 import ast
+import os
 import z3
 from .values import *
 from .engine import State, BUILTIN_EXC
@@ -362,9 +363,13 @@ def apply_contract(X, st, C, env, node):
         for cls_, fields_ in X.ctx.schema.items():
             if cls_ != "MultiTrackLargeVocabularyNotelikeTokeniser":
                 keep -= set(fields_)
-        for fld in list(st.heap):
-            if not fld.endswith("?") and fld not in ("@el", "@alloc", "@len") and fld not in mods and fld not in keep:
-                mods[fld] = None
+        # Fields the callee does not name in `modifies` keep their arrays (as for "keep_fields"): the objects a callee allocates are
+        # chosen among the references that are unallocated in the pre-state, whose cells are unconstrained there (every typing axiom and
+        # every program-derived fact is about allocated objects), so the values the callee gives them can be read off the same arrays.
+        if os.environ.get("PYVC_REFRAME_ALL"):
+            for fld in list(st.heap):
+                if not fld.endswith("?") and fld not in ("@el", "@alloc", "@len") and fld not in mods and fld not in keep:
+                    mods[fld] = None
         mods.setdefault("@lists", None)
     C_modifies = mods
     if not C.pure:
